@@ -120,10 +120,66 @@ func parseModel(raw string, gv map[string]*Term) map[string]string {
 
 func (o *Obligation) query(axioms []*Term) *Query {
 	q := &Query{Axioms: axioms}
-	q.Asserts = append(q.Asserts, o.Hyps...)
+	var hyps []*Term
+	var hsks []*Term
+	for _, h := range o.Hyps {
+		nh, sk := skolemizeHyp(h)
+		hyps = append(hyps, nh)
+		hsks = append(hsks, sk...)
+	}
+	q.Asserts = append(q.Asserts, hyps...)
 	q.Asserts = append(q.Asserts, o.PC)
 	if !o.Cover {
-		q.Asserts = append(q.Asserts, Not(o.Goal))
+		goal, sks := skolemize(o.Goal)
+		ng := Not(goal)
+		q.Asserts = append(q.Asserts, ng)
+		var cands []*Term
+		cands = append(cands, sks...)
+		cands = append(cands, hsks...)
+		if o.RP != nil && o.RP.ex != nil && o.RP.ex.idxSeen != nil {
+			// index terms that occur in the (skolemised) negated goal
+			seenT := map[int]bool{}
+			var walk func(t *Term)
+			walk = func(t *Term) {
+				if seenT[t.id] {
+					return
+				}
+				seenT[t.id] = true
+				if o.RP.ex.idxSeen[t.id] && !t.bound && len(cands) < 12 {
+					cands = append(cands, t)
+				}
+				for _, a := range t.args {
+					walk(a)
+				}
+			}
+			walk(ng)
+		}
+		if len(cands) > maxInstCands {
+			cands = cands[:maxInstCands]
+		}
+		base := append(append([]*Term{}, hyps...), ng)
+		seenA := map[int]bool{}
+		for round := 0; round < 3; round++ {
+			ext := instantiate(base, cands)
+			grew := false
+			for _, e := range ext {
+				ne, sk := skolemizeHyp(e)
+				if seenA[ne.id] {
+					continue
+				}
+				if len(sk) > 0 && len(cands) < maxInstCands+16 {
+					cands = append(cands, sk...)
+					grew = true
+				}
+				if round == 2 || !grew {
+					seenA[ne.id] = true
+					q.Asserts = append(q.Asserts, ne)
+				}
+			}
+			if !grew {
+				break
+			}
+		}
 	}
 	for _, in := range o.Inputs {
 		if in.Term.op == "var" {
